@@ -1558,3 +1558,124 @@ pub async fn stale_patch_op(world: &mut NetWorld, di: usize, s: &Value, rec: &mu
     // the server must keep serving and stay consistent with its storage
     class.to_string()
 }
+
+/// C11: trust an extra device key, show it is served, revoke it; from then
+/// on it must be refused on every route (the sweep adds it as a credential).
+pub async fn revoke_flow(world: &mut NetWorld, di: usize, rec: &mut Recorder) -> String {
+    use sos_signer::ed25519::{BoxedEd25519Signer, SingleParty};
+    if world.revoked_key.is_some() {
+        return "skip".into();
+    }
+    let seed = [0x43u8; 32];
+    let key: BoxedEd25519Signer = match SingleParty::try_from(seed) {
+        Ok(k) => Box::new(k),
+        Err(_) => return "skip".into(),
+    };
+    let vk = ed25519_dalek::SigningKey::from_bytes(&seed).verifying_key();
+    let pk: DevicePublicKey = vk.to_bytes().into();
+    let before = device_log_lens(&world.devices[di].dev).await;
+    {
+        let mut a = world.devices[di].dev.lock().await;
+        let when = time::OffsetDateTime::from_unix_timestamp(1_650_000_100).unwrap();
+        let td = TrustedDevice::new(pk, Some(Default::default()), Some(when));
+        if a.patch_devices_unchecked(&[DeviceEvent::Trust(td)]).await.is_err() {
+            return "err:trust".into();
+        }
+    }
+    record_own_commits(&mut world.devices[di], before).await;
+    if world.sync(di, rec).await != "ok" {
+        return "err:sync_after_trust".into();
+    }
+    // positive control: the trusted key is served
+    let account_id = world.devices[di].dev.account_id;
+    let probe = |k: BoxedEd25519Signer| async move {
+        let auth = bearer(&k, ROUTE_STATUS.as_bytes()).await.ok()?;
+        http::Request::builder()
+            .method(http::Method::GET)
+            .uri(format!("{ROUTE_STATUS}?connection_id=extra"))
+            .header(X_SOS_ACCOUNT_ID, account_id.to_string())
+            .header(http::header::AUTHORIZATION, auth)
+            .body(axum::body::Body::empty())
+            .ok()
+    };
+    if let Some(req) = probe(key.clone()).await {
+        if let Ok((st, _, _)) = world.net.deliver_now(97, "trusted_extra_key:status", req, &[]).await {
+            if st.as_u16() != 200 {
+                rec.observe(&format!("trusted extra key answered {st}"));
+                rec.stats.probe("c11.trusted_extra_key_not_served");
+            } else {
+                rec.stats.probe("c11.trusted_extra_key_served");
+            }
+        }
+    }
+    let before = device_log_lens(&world.devices[di].dev).await;
+    {
+        let mut a = world.devices[di].dev.lock().await;
+        if a.revoke_device(&pk).await.is_err() {
+            return "err:revoke".into();
+        }
+    }
+    record_own_commits(&mut world.devices[di], before).await;
+    if world.sync(di, rec).await != "ok" {
+        return "err:sync_after_revoke".into();
+    }
+    world.revoked_key = Some(key);
+    rec.stats.probe("c11.key_revoked");
+    "ok".into()
+}
+
+// ------------------------------------------------------------ plaintext (C03)
+
+/// Learn folder passwords and the device signing key, then scan every
+/// channel for every marker.
+pub async fn plaintext_scan(world: &mut NetWorld, rec: &mut Recorder) {
+    use secrecy::ExposeSecret;
+    let Some(mut sc) = world.scanner.take() else { return };
+    if std::env::var("SOSSIM_C03_SELFTEST").is_ok() {
+        // sensitivity self-test: the account name is stored in the clear, so
+        // declaring it secret must raise an alarm on every channel that holds it
+        marker_custom("Documents", "selftest.folder_name");
+    }
+    for d in &world.devices {
+        if d.dev.account.is_none() {
+            continue;
+        }
+        let a = d.dev.lock().await;
+        for fid in d.dev.model.folders.keys() {
+            if let Ok(Some(sos_core::crypto::AccessKey::Password(p))) = a.find_folder_password(fid).await {
+                marker_custom(p.expose_secret(), "folder.password");
+            }
+        }
+        if let Ok(s) = a.device_signer().await {
+            sc.add_secret_bytes(&s.to_bytes(), "device.signing_key");
+        }
+    }
+    // (a) everything written under the run directory since the last step
+    for (path, data) in crate::interpose::disk_take_tapped() {
+        let role = crate::plainscan::file_role(&path);
+        sc.scan(&format!("disk_write:{role}"), &path, &data, rec);
+    }
+    // (b) every file that exists now
+    let root = world.root.clone();
+    sc.scan_tree(&root, rec);
+    // (c) every wire buffer
+    let bufs: Vec<(String, Vec<u8>)> = std::mem::take(&mut *world.net.0.tap.lock().unwrap());
+    for (kind, b) in bufs {
+        let (dir, k) = kind.split_once(':').unwrap_or(("wire", &kind));
+        let ch = if dir == "req" { "wire_request" } else { "wire_response" };
+        sc.scan(&format!("{ch}:{k}"), k, &b, rec);
+    }
+    rec.stats.counters.insert("c03.patterns".into(), sc.markers() as u64);
+    rec.stats.counters.insert("c03.bytes_scanned".into(), sc.bytes_scanned);
+    world.scanner = Some(sc);
+}
+
+/// Export a backup archive into the run directory (scanned like any file).
+pub async fn export_op(world: &mut NetWorld, di: usize, idx: usize) -> String {
+    let path = world.root.join(format!("export-d{di}-{idx}.zip"));
+    let a = world.devices[di].dev.lock().await;
+    match a.export_backup_archive(&path).await {
+        Ok(_) => "ok".into(),
+        Err(e) => format!("err:{}", short_err(&e.to_string())),
+    }
+}
